@@ -21,7 +21,8 @@ package main
 // string index or slice expression with a non-constant index, except `xs[i]` inside
 // `for i := range xs` and inside `for i := …; i < len(xs); …`), assert (x.(T) without ok),
 // ignorederr (`v, _ := f()` where the blank discards an `error` result of a repo function and v is
-// used afterwards as a pointer/struct).
+// used afterwards as a pointer/struct), conv (sdkmath.Int.Int64()/Uint64(), LegacyDec.TruncateInt64()/RoundInt64():
+// panic when the value does not fit; math/big's Int64()/Uint64() wrap silently and are not listed).
 
 import (
 	"fmt"
@@ -259,10 +260,47 @@ func isConstExpr(e ast.Expr) bool {
 var quoNames = map[string]bool{"Quo": true, "QuoInt": true, "QuoRaw": true, "QuoInt64": true, "QuoTruncate": true, "QuoRoundUp": true,
 	"QuoMut": true, "QuoIntMut": true, "QuoTruncateMut": true, "QuoRoundupMut": true, "Mod": true, "ModRaw": true, "Div": true, "Rem": true, "QuoRem": true, "DivMod": true}
 
+// conversions that panic when the value is out of range (cosmossdk.io/math: Int.Int64 / Int.Uint64 /
+// Uint.Uint64 "out of bound", LegacyDec.TruncateInt64 / RoundInt64 "Int64() out of bound")
+var convNames = map[string]bool{"Int64": true, "Uint64": true, "TruncateInt64": true, "RoundInt64": true}
+
+// convCanPanic: the receiver is an sdkmath Int / Uint / LegacyDec (math/big.Int's Int64()/Uint64() never panic),
+// or a value of unknown type built by a chain of sdkmath arithmetic.
+func convCanPanic(s *xScope, recv ast.Expr, name string) bool {
+	if c, ok := recv.(*ast.CallExpr); ok && len(c.Args) == 0 {
+		if sel, ok := c.Fun.(*ast.SelectorExpr); ok && sel.Sel.Name == "BigInt" {
+			return false // x.BigInt() is a *big.Int
+		}
+	}
+	t := s.typeOf(recv)
+	if t.E != nil {
+		txt := exprText(t.E)
+		txt = strings.TrimPrefix(txt, "*")
+		if strings.HasSuffix(txt, "big.Int") {
+			return false
+		}
+	}
+	k := s.kind(recv)
+	if name == "TruncateInt64" || name == "RoundInt64" {
+		return k == "dec" || k == "?" || k == "ext"
+	}
+	return k == "bigint" || k == "dec" || k == "?"
+}
+
+// siteSink, when set, receives every panic-capable site with the scope and the ancestor stack at the site
+// (used by facts_siteguards.go to emit the site-guard kernels)
+var siteSink func(ix *xIndex, fn *xFunc, s *xScope, kind string, siteStr string, site ast.Node, stack []ast.Node)
+
 func panicSites(ix *xIndex, fn *xFunc) []string {
 	var out []string
+	var curStack []ast.Node // ancestors of the node being visited (set by the walk below)
+	var curScope *xScope
 	add := func(kind string, n ast.Node) {
-		out = append(out, fmt.Sprintf("%s:%s:%s:%s", fn.File.Rel, fn.QName(), kind, srcText(n)))
+		str := fmt.Sprintf("%s:%s:%s:%s", fn.File.Rel, fn.QName(), kind, srcText(n))
+		out = append(out, str)
+		if siteSink != nil {
+			siteSink(ix, fn, curScope, kind, str, n, curStack)
+		}
 	}
 	// divisions carry their dominating guards: the conditions of the enclosing `if`s (negated in an else
 	// branch) and of the earlier sibling `if … { return | continue | break | panic }` statements of every
@@ -273,9 +311,13 @@ func panicSites(ix *xIndex, fn *xFunc) []string {
 		if len(g) > 0 {
 			txt = strings.Join(g, " ; ")
 		}
-		out = append(out, fmt.Sprintf("%s:%s:%s:%s <= %s", fn.File.Rel, fn.QName(), kind, srcText(n), txt))
+		str := fmt.Sprintf("%s:%s:%s:%s <= %s", fn.File.Rel, fn.QName(), kind, srcText(n), txt)
+		out = append(out, str)
 		if guardSink != nil {
 			guardSink(fn, kind, n, g, stack)
+		}
+		if siteSink != nil {
+			siteSink(ix, fn, curScope, kind, str, n, stack)
 		}
 	}
 	consts := map[string]bool{}
@@ -326,6 +368,7 @@ func panicSites(ix *xIndex, fn *xFunc) []string {
 	// variables assigned with an ignored error: name -> call text
 	ignored := map[string]string{}
 	ix.walkFunc(fn, func(s *xScope, n ast.Node, stack []ast.Node) {
+		curStack, curScope = stack, s
 		switch t := n.(type) {
 		case *ast.CallExpr:
 			if id, ok := t.Fun.(*ast.Ident); ok && id.Name == "panic" {
@@ -340,6 +383,9 @@ func panicSites(ix *xIndex, fn *xFunc) []string {
 				name = f.Name
 			case *ast.SelectorExpr:
 				name = f.Sel.Name
+				if convNames[name] && len(t.Args) == 0 && convCanPanic(s, f.X, name) {
+					add("conv", t)
+				}
 				if quoNames[name] && len(t.Args) >= 1 {
 					k := s.kind(f.X)
 					if k == "dec" || k == "bigint" || k == "?" || k == "ext" {
@@ -431,8 +477,8 @@ func panicSites(ix *xIndex, fn *xFunc) []string {
 				}
 			}
 			if isConst(s, t.Index) {
-				// constant index can still be out of range; count only non-zero constants on slices
-				if bl, ok := t.Index.(*ast.BasicLit); ok && bl.Value == "0" {
+				// a constant index is out of range on a shorter slice just the same
+				if _, ok := t.Index.(*ast.BasicLit); ok {
 					add("index", t)
 				}
 				return
